@@ -31,6 +31,7 @@ type Obligation struct {
 	Extra   []*Term
 	NIMap   map[*Term]*Term // non-interference: substitution giving the second run's terms
 	Expr    string          // Go text of the contract clause, for replay
+	Clause  *Clause         // the clause itself (typed expression), for replay
 }
 
 type Encoder struct {
@@ -654,6 +655,13 @@ func (e *Encoder) instr(fr *frame, b *ssa.BasicBlock, in ssa.Instruction) {
 		a := e.cellAddr(ref, pt)
 		e.store(e.cur, a, e.zero(pt))
 		fr.vals[x] = e.ptrTo(a)
+		if isBytesBuffer(pt) {
+			// the zero value is an empty buffer: nothing written yet
+			p := fr.vals[x].T
+			for _, g := range []string{"ghost:bufwrites", "ghost:buflen"} {
+				e.set(e.cur, g, e.c.Store(e.get(e.cur, g, Arr(RefS, BV64)), p, e.c.BVLit(0, 64)))
+			}
+		}
 		if e.pure == 0 && len(e.loopRefSyms) == 0 {
 			e.tracked = append(e.tracked, trackedObj{ref, pt})
 		}
@@ -683,6 +691,7 @@ func (e *Encoder) instr(fr *frame, b *ssa.BasicBlock, in ssa.Instruction) {
 		v = e.coerce(v, a.Typ)
 		e.frameCheck(fr, a, x.Pos())
 		e.escapeCheck(v)
+		e.atStore(fr, x, v)
 		e.store(e.cur, a, v)
 	case *ssa.Convert:
 		fr.vals[x] = e.convert(fr, x)
@@ -1590,6 +1599,59 @@ func (e *Encoder) atReturn(fr *frame, x *ssa.Return) {
 			tag = "at.return"
 		}
 		if o := e.oblige("atcall", tag, "at the return statement: "+cl.Text, t, x.Pos()); o != nil {
+			o.Props = propsOfTag(cl.Tag, e.contract.Props)
+		}
+		e.assume(t)
+	}
+}
+
+func isBytesBuffer(t types.Type) bool {
+	nt, ok := t.(*types.Named)
+	return ok && nt.Obj().Pkg() != nil && nt.Obj().Pkg().Path() == "bytes" && nt.Obj().Name() == "Buffer"
+}
+
+// atStore evaluates "at store:<Field> assert" clauses just before an assignment to a struct field of
+// that name in the verified function: arg(0) is the value being assigned, locals have the values
+// they have at that statement.
+func (e *Encoder) atStore(fr *frame, x *ssa.Store, v *SVal) {
+	if e.pure != 0 || len(e.inlineStack) != 0 || e.contract == nil || fr.fn != e.top || len(e.contract.AtCalls) == 0 {
+		return
+	}
+	fa, ok := x.Addr.(*ssa.FieldAddr)
+	if !ok {
+		return
+	}
+	pt, ok := fa.X.Type().Underlying().(*types.Pointer)
+	if !ok {
+		return
+	}
+	st, ok := pt.Elem().Underlying().(*types.Struct)
+	if !ok {
+		return
+	}
+	name := "store:" + st.Field(fa.Field).Name()
+	for _, cl := range e.contract.AtCalls {
+		if cl.Callee != name || (cl.Slow && !thoroughTier) {
+			continue
+		}
+		if err := e.w.parseClause(e.contract, cl); err != nil {
+			panic(contractError{err})
+		}
+		if cl.Expr != nil && fr.fn.Pkg != nil {
+			// the clause applies where the variables it names are in scope
+			if err := types.CheckExpr(e.w.Fset, fr.fn.Pkg.Pkg, x.Pos(), cl.Expr, nil); err != nil && strings.Contains(err.Error(), "undefined:") {
+				continue
+			}
+		}
+		env := e.contractEnv(fr, e.contract, nil, e.cur, e.entry)
+		env.atInstr = x
+		env.callArgs = []*SVal{v}
+		t := env.trClause(cl)
+		tag := cl.Tag
+		if tag == "" {
+			tag = "at." + name
+		}
+		if o := e.oblige("atcall", tag, "at the assignment to ."+st.Field(fa.Field).Name()+": "+cl.Text, t, x.Pos()); o != nil {
 			o.Props = propsOfTag(cl.Tag, e.contract.Props)
 		}
 		e.assume(t)
